@@ -28,15 +28,15 @@ type unfaithful struct {
 
 	p []any
 	// attributes used by the recognisers of the planner findings
-	typenameField    bool // the key concerned is a __typename selection (in the operation or in the plan)
-	level            levelInfo // of the object's selection level
-	crossParent      bool // the object's own field is cross-context merged on its parent's level
-	crossAbove       bool // ... or some enclosing field is
-	absentTypename   bool // key-missing only: the plan selects the key once absent __typename entries are read as the statically known type
-	emptyPossible    bool // possible-types only: the plan node has no PossibleTypes at all
-	planParentConds  bool // the plan has a field with this key that carries ParentOnTypeNames
-	planHasKey       bool // the plan has some field with this key (under whatever conditions)
-	nestedListItem   bool // the object is an item of a list of lists
+	typenameField   bool      // the key concerned is a __typename selection (in the operation or in the plan)
+	level           levelInfo // of the object's selection level
+	crossParent     bool      // the object's own field is cross-context merged on its parent's level
+	crossAbove      bool      // ... or some enclosing field is
+	absentTypename  bool      // key-missing only: the plan selects the key once absent __typename entries are read as the statically known type
+	emptyPossible   bool      // possible-types only: the plan node has no PossibleTypes at all
+	planParentConds bool      // the plan has a field with this key that carries ParentOnTypeNames
+	planHasKey      bool      // the plan has some field with this key (under whatever conditions)
+	nestedListItem  bool      // the object is an item of a list of lists
 }
 
 func (u unfaithful) String() string { return u.kind + "@" + u.path + ": " + u.what }
